@@ -13,18 +13,19 @@ def prove_exact(rep, rule, name, key, term, expect, valid=(), nz=(), where=None)
     rep.check(ok, rule, name, key, "%s is not provable: the result rewrites to (%s, %s), expected (%s, %s)" % (name, vg.show(a[0])[:200], vg.show(a[1])[:200], vg.show(expect[0])[:60], vg.show(expect[1])[:60]),
               detail="rewrites to (%s, %s) with the finite-operand identities for 0 and +-1%s" % (vg.show(expect[0])[:40], vg.show(expect[1])[:40], " and the validity of the operand" if valid else ""), where=where)
 
-def ops(rep, f, rule):
+def ops(rep, f, rule, need):
+    """prim-level results of the operator bodies a property's exact-point clauses are about (only those)"""
     rt, rf = "&" + TF, "&f64"
-    V = lambda i: leaf_value(f, i, (), rep, rule)
-    return {"add_tt": V(H.op_ident("Add", rt, rt, "add")), "sub_tt": V(H.op_ident("Sub", rt, rt, "sub")),
-            "mul_tt": V(H.op_ident("Mul", rt, rt, "mul")), "mul_tf": V(H.op_ident("Mul", rt, rf, "mul")), "mul_ft": V(H.op_ident("Mul", rf, rt, "mul")),
-            "div_tf": V(H.op_ident("Div", rt, rf, "div")), "div_tt": V(H.op_ident("Div", rt, rt, "div")), "div_ft": V(H.op_ident("Div", rf, rt, "div")),
-            "neg": V("<&TwoFloat as core::ops::Neg>::neg")}
+    idents = {"add_tt": H.op_ident("Add", rt, rt, "add"), "sub_tt": H.op_ident("Sub", rt, rt, "sub"),
+              "mul_tt": H.op_ident("Mul", rt, rt, "mul"), "mul_tf": H.op_ident("Mul", rt, rf, "mul"), "mul_ft": H.op_ident("Mul", rf, rt, "mul"),
+              "div_tf": H.op_ident("Div", rt, rf, "div"), "div_tt": H.op_ident("Div", rt, rt, "div"), "div_ft": H.op_ident("Div", rf, rt, "div"),
+              "neg": "<&TwoFloat as core::ops::Neg>::neg"}
+    return {k: leaf_value(f, idents[k], (), rep, rule) for k in need}
 
 def S(t, x, y): return subst(t, {0: x, 1: y})
 
 def check_exact_C03(rep, f):
-    o = ops(rep, f, "R6x")
+    o = ops(rep, f, "R6x", ("add_tt", "sub_tt", "neg"))
     if any(v is None for v in o.values()):
         return
     a = P(0)
@@ -34,7 +35,7 @@ def check_exact_C03(rep, f):
     prove_exact(rep, "R6x", "a - a == 0 exactly", "zero-sum:sub", S(o["sub_tt"], a, a), Z)
 
 def check_exact_C04(rep, f):
-    o = ops(rep, f, "R8x")
+    o = ops(rep, f, "R8x", ("mul_tt", "mul_tf", "mul_ft"))
     if any(v is None for v in o.values()):
         return
     a = P(0)
@@ -52,7 +53,7 @@ def check_exact_C04(rep, f):
     prove_exact(rep, "R8x", "a * TwoFloat(-1) == -a", "times-minus-one:tt", S(o["mul_tt"], a, MONE), negd, valid=[a])
 
 def check_exact_C05(rep, f):
-    o = ops(rep, f, "R9x")
+    o = ops(rep, f, "R9x", ("div_tf", "div_tt", "div_ft"))
     if any(v is None for v in o.values()):
         return
     a, b = P(0), P(1)
